@@ -127,6 +127,17 @@ class Trace(object):
         _l.__name__ = 'listener_%s_%s_%s' % (level, event, tag)
         return _l
 
+    def bound_listener(self, level, event, tag):
+        """An object whose bound method is the listener: every attribute
+        access yields a NEW (but equal) bound-method object."""
+        trace = self
+
+        class _Obj(object):
+            def on_event(self, ctx, *a, **kw):
+                dk = getattr(ctx, 'descriptor', None) is not None
+                trace.ev.append((trace.stamp(), level, event, tag, dk))
+        return _Obj()
+
 
 class CallLog(list):
     def __init__(self, trace):
@@ -175,15 +186,28 @@ def run_case(case):
     raising_event = {'l_call': 'method_call',
                      'l_ret': 'method_return_object'}.get(st)
 
+    keep = []
+
     def reg(mgr, lvl, events):
         made = []
         for e in events:
-            a = tr.listener(lvl, e, 'A')
-            b = tr.listener(lvl, e, 'B')
-            mgr.add_listener(e, a)
-            mgr.add_listener(e, b)
-            if case['dup']:
-                mgr.add_listener(e, a)      # registered twice: runs once
+            if case['dup'] and case['variant'] % 2:
+                # the same bound method, obtained twice (two distinct but
+                # equal objects): still one listener
+                obj = tr.bound_listener(lvl, e, 'A')
+                keep.append(obj)
+                a = obj.on_event
+                b = tr.listener(lvl, e, 'B')
+                mgr.add_listener(e, obj.on_event)
+                mgr.add_listener(e, b)
+                mgr.add_listener(e, obj.on_event)
+            else:
+                a = tr.listener(lvl, e, 'A')
+                b = tr.listener(lvl, e, 'B')
+                mgr.add_listener(e, a)
+                mgr.add_listener(e, b)
+                if case['dup']:
+                    mgr.add_listener(e, a)  # registered twice: runs once
             made.append((e, a, b))
         return made
 
